@@ -31,6 +31,8 @@ pub fn check(tier: Tier) -> Check {
     parts.push(Part::new("C07/many", json!({"subs": 4, "depth": tier.pick(5, 6)}), tier.pick(0, 1), tier.pick(30, 400)));
     // a rolling population: streams dropped and new subscriptions made again and again, so that the
     // client's bookkeeping shrinks, grows and wraps around; every live stream gets its messages
+    // a stream that lags 70 000 messages behind (and a response whose stream() is called that late)
+    parts.push(Part::new("C07/deep-backlog", json!({"n": 70_000}), 0, 120));
     parts.push(Part::new("C07/rolling", json!({"rounds": tier.pick(14, 40)}), 0, 120));
     Check {
         also_rel: false,
@@ -282,6 +284,49 @@ fn bits(name: String, params: Value) -> Scenario {
 }
 
 pub fn scenario(name: &str, params: &Value) -> Scenario {
+    if name == "C07/deep-backlog" {
+        let n = params["n"].as_u64().unwrap_or(70_000) as usize;
+        let name = name.to_string();
+        let params = params.clone();
+        return Box::new(move |chz, ex| {
+            let late = chz.choose(2) == 1;
+            let mut sys = Sys::new("C07", &name, chz);
+            sys.params = params.clone();
+            sys.m.check_client_acks = false;
+            sys.bring_up(vec![]);
+            for i in 0..2 {
+                sys.apply(Ev::Start(OpSpec::Subscribe(SubscribeSpec::simple(&format!("s/{}", i)))));
+                if sys.dead {
+                    return sys.report(ex, &[]);
+                }
+                let ack = sys.ack_for(i, 0, "").unwrap();
+                sys.apply(Ev::Deliver(ack));
+            }
+            sys.apply(Ev::TakeStream(1));
+            if !late {
+                sys.apply(Ev::TakeStream(0));
+                sys.apply(Ev::Hold(crate::world::Tid::Stream(1)));
+            }
+            let a = sys.m.subs[0].sub_id.unwrap();
+            let b = sys.m.subs[1].sub_id.unwrap();
+            for i in 0..n {
+                sys.apply(Ev::Deliver(inbound(0, false, 0, &[a], &format!("{}", i))));
+                if i % 1000 == 0 {
+                    sys.apply(Ev::Deliver(inbound(0, false, 0, &[b], &format!("other{}", i))));
+                }
+                if sys.dead {
+                    return sys.report(ex, &[]);
+                }
+            }
+            if late {
+                sys.apply(Ev::TakeStream(0));
+            }
+            sys.apply(Ev::Deliver(inbound(0, false, 0, &[a, b], "after")));
+            sys.finish();
+            sys.events = vec![format!("{} messages unread in one stream ({}), then it is read", n, if late { "stream() called late" } else { "stream held back" })];
+            sys.report(ex, &["message-dispatched"]);
+        });
+    }
     if name == "C07/rolling" {
         return rolling(name.to_string(), params.clone());
     }
